@@ -64,6 +64,12 @@ def one_connection(acc, sc, rng, case, wit, round_no):
             for k in range(case["flood"]):
                 sc.node.send_message(big)
         sc.sched.spawn("flooder%d" % round_no, flood)
+    if case.get("backlog"):
+        # a send queue backed up past several 256 KiB batches while the base requests arrive: the shared, long-lived
+        # answer objects then stay queued across ticks
+        big = DiameterMessage.load(R.encode(N.app_request(778, size=70000, host=N.LOCAL[0], realm=N.LOCAL[1], dest_realm=N.PEER[1])))[0]
+        sc.node.send_messages([big] * case["backlog"])
+        acc.counters["backlog_cases"] += 1
     n = case["n"]
     burst = b""
     for k in range(n):
@@ -204,6 +210,9 @@ def main(tier, seed):
         cases.append({"seed": seed * 1009 + i, "role": rng.choice(["client", "server"]), "n": rng.choice([1, 2, 3, 6, 12]),
                       "back_to_back": rng.random() < 0.5, "strategy": rng.choice(["rr", "rr", "rw"]), "p": rng.choice([0.02, 0.1]),
                       "rounds": rng.choice([1, 1, 2, 3]), "flood": rng.choice([0, 0, 0, 6])})
+    for i in range(24 if q else 600):
+        cases.append({"seed": seed * 1013 + i, "role": rng.choice(["client", "server"]), "n": rng.choice([2, 3, 5]), "back_to_back": True,
+                      "strategy": rng.choice(["rr", "rw"]), "p": 0.05, "rounds": 1, "flood": 0, "backlog": rng.choice([12, 24])})
     nb = 16 if q else 64
     batches = [{"cases": cases[i::nb]} for i in range(nb)]
     acc = harness.run_workers("checks.c07_base_answers", "run_batch", batches, 3400)
@@ -212,7 +221,7 @@ def main(tier, seed):
                           ["the peer is scripted by the driver task; answers are read from the bytes the node wrote to the substituted socket",
                            "identifier pairs are sampled (boundary + random), not enumerated over 2^64",
                            "emission order is decided on scheduler steps: the send() that carried the answer's last byte vs the step at which the state machine took the next inbound message"],
-                          t0, require_counters=("answers_seen", "connections", "reconnects", "ordering_checked"))
+                          t0, require_counters=("answers_seen", "connections", "reconnects", "ordering_checked", "backlog_cases"))
 
 
 def replay(w):
